@@ -8,11 +8,10 @@ TUS = ['internal/XMLReader.cpp', 'util/BinInputStream.cpp']
 HARNESSES = [
  dict(name='reader_chunks', entry='harness_reader_chunks', srcs=['C04/reader.cpp'], tus=TUS, const_tables=[T10, T11],
       defs={'quick': {'N': 6, 'XERCES_VERIF_CHARBUF': 2, 'XERCES_VERIF_RAWBUF': 4}, 'thorough': {'N': 8, 'XERCES_VERIF_CHARBUF': 3, 'XERCES_VERIF_RAWBUF': 6}},
-      unwind={'quick': 3, 'thorough': 3}, unwind_gentle=True, unwind_cap=12, timeout={'quick': 900, 'thorough': 1700}, mem_gb=16),
+      unwind={'quick': 5, 'thorough': 6}, unwind_gentle=True, unwind_cap=12, timeout={'quick': 900, 'thorough': 1700}, mem_gb=16),
 ]
 LEVEL_TEXT = ('Bounded model checking (the real reader against a reference computed from the whole byte string) of the buffer-refill layer with the two-byte decoder stub honouring the transcoder contract: for ALL inputs of N bytes and ALL partitions of the '
               'byte stream into reads, with the refill points forced inside the input by a small window, the delivered characters, positions and outcome are identical and the reader invariant holds.')
 LEVEL_NOTE = ('Window sizes 2/4 (quick), 3/6 (thorough) instead of 16K/48K (hook; arithmetic depending on the magnitude of the real constants is outside the claim). NOT claimed: file/stdin/memory stream classes, '
               'external entities, token scanners straddling refills (getName, skippedString, ...), error positions in whole documents.')
 
-READY = False
